@@ -1327,6 +1327,43 @@ Definition pc04_block (bi : BlockIn) (b : BlockObs) : bool :=
 Fixpoint pcheck04 (l : list (BlockIn * BlockObs)) : bool :=
   match l with [] => true | (bi, b) :: r => pc04_block bi b && pcheck04 r end.
 
+(* C05: what process_da must import for this block, or None when it must fail *)
+Definition l1_expected (hdr : Header) (l : L1) : option (list Event * list (list N) * list Att) :=
+  if l_enabled l then
+    if h_height hdr =? 0 then None else
+    match l_prev_da l with
+    | None => None
+    | Some p =>
+        if p =? u64max then None else
+        match da_range (N.to_nat (h_da hdr - p)) (p + 1) (l_relayer l) (mkSt [] [] [] [] []) with
+        | (_, ev, fs, hs, None) => Some (ev, hs, fs)
+        | _ => None
+        end
+    end
+  else Some ([], [], []).
+Definition is_import (e : Event) : bool := match e with MsgImported _ _ => true | _ => false end.
+Definition is_forced_failed (id : N) (e : Event) : bool :=
+  match e with ForcedFailed i => i =? id | _ => false end.
+Definition pc05_block (bi : BlockIn) (b : BlockObs) : bool :=
+  let prod := bo_prod b in
+  let l := bi_l1 bi in
+  if o_err prod =? 0 then
+    match l1_expected (bi_hdr bi) l with
+    | None => false
+    | Some (ev, hs, fs) =>
+        listT_eqb (map tEvent (firstn (length ev) (o_events prod))) (map tEvent ev) &&
+        listT_eqb (map tEvent (filter is_import (o_events prod))) (map tEvent (filter is_import ev)) &&
+        listN_eqb (o_inbox prod) (if l_enabled l then binary_root256 hs else repeat 0 32) &&
+        forallb (fun a => mem (t_id (a_tx a)) (o_ids prod) ||
+                          existsb (is_forced_failed (t_id (a_tx a))) (o_events prod)) fs
+    end
+  else if existsb (N.eqb (o_err prod)) [E_ExecutingGenesisBlock; E_PreviousBlockIsNotFound;
+                                        E_DaHeightExceededItsLimit; E_RelayerGivesIncorrectMessages]
+       then match l1_expected (bi_hdr bi) l with None => true | Some _ => false end
+       else true.
+Fixpoint pcheck05 (l : list (BlockIn * BlockObs)) : bool :=
+  match l with [] => true | (bi, b) :: r => pc05_block bi b && same_results bi b && pcheck05 r end.
+
 (* C45: dry runs changed no column of any database and answered identically when repeated
    (flags computed by the harness over ALL columns) *)
 Fixpoint pcheck45 (l : list (BlockIn * BlockObs)) : bool :=
@@ -1347,6 +1384,7 @@ Definition main_hist (tag : Z) (observed : T) : T :=
                 | 3%Z => pcheck03 P (combine bis' obs)
                 | 1%Z => pcheck01 (combine bis' obs)
                 | 4%Z => pcheck04 (combine bis' obs)
+                | 5%Z => pcheck05 (combine bis' obs)
                 | 45%Z => pcheck45 (combine bis' obs)
                 | _ => false
                 end && (length bis' =? length obs)%nat
